@@ -176,11 +176,13 @@ def check(repo, run, tier):
     g(r4, repo, run)
     g(unitrules.config_entry, repo, run, 'C14.R5')
     g(unitrules.tag_spec, repo, run, 'C14.R2', ['!required'])
+    g(unitrules.small_node_tables, repo, run, 'C14.R2', 'required')
     g.done()
 
 
 def mutants(repo):
     return [
+        Mutant('required-accepts-a-value', lambda r: in_func(r, 'RequiredNode.__init__', "            raise ValueError(f'!required does not expect any arguments, but got: {value!r}')", "            pass"), ['C14.R2']),
         Mutant('check-missing-only-for-default-context', lambda r: in_func(r, 'Config.__init__', "            Config.check_missing(config_dict)\n            self._source = config_dict", "            if eval_ctx is None:\n                Config.check_missing(config_dict)\n            self._source = config_dict"), ['C14.R5', 'C14.R1']),
         Mutant('lazy-check-after-evaluate', lambda r: in_func(r, 'Config.__init__', "            Config.check_missing(config_dict)\n", ""), ['C14.R1']),
         Mutant('check-after-deepcopy-evaluate', lambda r: in_func(r, 'Config.__init__',
